@@ -166,10 +166,28 @@ class LokiStringifyMapper(StringifyMapper):
         first = self.rec_with_force_parens_around(expr.children[0], PREC_PRODUCT, *args, **kwargs)
         # A quotient that is not the leading factor needs brackets: ``a*(b / c)`` is not ``a*b / c``
         kwargs['force_parens_around'] = (pmbl.Quotient, pmbl.FloorDiv, pmbl.Remainder)
-        factors = [first] + [
-            self.rec_with_force_parens_around(ch, PREC_PRODUCT, *args, **kwargs) for ch in expr.children[1:]
-        ]
+        factors = [first]
+        for ch in expr.children[1:]:
+            factor = self.rec_with_force_parens_around(ch, PREC_PRODUCT, *args, **kwargs)
+            if self._starts_with_quotient(ch):
+                # A nested product is printed without brackets, which moves its leading quotient
+                # into a non-leading position: ``a*(b / c*d)`` is not ``a*b / c*d``
+                factor = self.parenthesize(factor)
+            factors.append(factor)
         return self.parenthesize_if_needed(self.join('*', factors), enclosing_prec, PREC_PRODUCT)
+
+    def _starts_with_quotient(self, expr):
+        """
+        Check if :data:`expr` is an unbracketed product that is printed with a quotient
+        as its leading factor
+        """
+        if not isinstance(expr, pmbl.Product) or isinstance(expr, self.parenthesised_multiplicative_primitives):
+            return False
+        children = [ch for ch in expr.children if not (isinstance(ch, int) and ch == -1)] or list(expr.children)
+        lead = children[0]
+        if isinstance(lead, self.parenthesised_multiplicative_primitives):
+            return False
+        return isinstance(lead, pmbl.Quotient) or self._starts_with_quotient(lead)
 
     def map_power(self, expr, enclosing_prec, *args, **kwargs):
         # Exponentiation is right-associative, so a power in the base needs brackets:
